@@ -46,10 +46,15 @@ def render(c, rnd):
     reds = [spell(r, rnd) for r in c["rs"]]
     c["_attached_in"] = any(x.startswith("<") and " " not in x for x in reds)
     full = " ".join([cmd] + reds)
+    # further stages in front (they neither read nor are read: `vio Q`), so that the redirected command also is the third or
+    # fourth stage of its pipeline
+    c["_pad"] = rnd.choice([0, 0, 1, 2]) if c["pos"] in ("middle", "last") else 0
     if c["pos"] == "first":
         full = full + " | vio N r"
     elif c["pos"] == "last":
-        full = "vio P | " + full
+        full = "vio Q | " * c["_pad"] + "vio P | " + full
+    elif c["pos"] == "middle":
+        full = "vio Q | " * c["_pad"] + "vio P | " + full + " | vio N r"
     pre = "alias zz=vq ; " if c["kind"] == "bout" else ""
     return pre + full + " ; vmk 9 0 $? ; vio Z"
 
@@ -124,7 +129,7 @@ def judge(rep, c, line, res, ref):
     out_exp = [text_of(t, c, ref) for t in c["out"]]
     err_exp = [text_of(t, c, ref) for t in c["err"]]
     pipe_exp = "".join(text_of(t, c, ref) for t in c["pipe"])
-    if c["pos"] == "first":
+    if c["pos"] in ("first", "middle"):
         out_exp.append("o:N\n")
         err_exp.append("e:N\n")
         n = [r for r in logs if r.get("h") == "io" and r.get("tag") == "N"]
@@ -135,8 +140,9 @@ def judge(rep, c, line, res, ref):
             nin = "".join(ln for ln in nin.splitlines(True) if not ln.startswith("cicada: "))
         if nin != pipe_exp:
             return bad("pipe-content", "the next stage read %r, expected %r" % (n[0].get("stdin"), pipe_exp))
-    if c["pos"] == "last":
+    if c["pos"] in ("last", "middle"):
         err_exp.append("e:P\n")
+        err_exp += ["e:Q\n"] * c.get("_pad", 0)
         if not (c["kind"] == "ext" and c["ran"] and c["stdin"] == "PIPE"):
             pass  # P's stdout goes into the pipe and is not read by a builtin / redirected stdin: lost, as in any shell
     out_exp.append("o:Z\n")
